@@ -13,7 +13,9 @@ use std::sync::Mutex;
 const TOKENS: [&str; 12] = ["u000a", "\n", "*/", "/*", "//", "\"\"\"", "'''", "\\", "#", "`", "\"", "'"];
 const TOKEN_NAMES: [&str; 12] = ["word", "NL", "*/", "/*", "//", "\"\"\"", "'''", "backslash", "#", "backtick", "\"", "'"];
 const SYNTAXES: [&str; 4] = ["line", "block", "attr", "raw-attr"];
-const POSITIONS: [&str; 12] = ["type", "field", "unit-variant", "variant", "variant-field", "alias", "unit-enum-type", "algebraic-enum-type", "algebraic-unit-variant", "algebraic-struct-variant", "newtype-struct", "unit-struct"];
+const POSITIONS: [&str; 14] = ["type", "field", "unit-variant", "variant", "variant-field", "alias", "unit-enum-type", "algebraic-enum-type", "algebraic-unit-variant", "algebraic-struct-variant", "newtype-struct", "unit-struct",
+    // members a backend declares through a call or an annotation of its own (optional, bound to another key)
+    "optional-field", "renamed-variant-field"];
 /// item-level `#[typeshare(..)]` arguments that send an item through another writer of a backend
 const DECORS: [&str; 4] = ["none", "kotlin-JvmInline-on-alias-and-newtype", "redacted-everywhere-plus-JvmInline", "swift-decorators-and-constraints"];
 
@@ -89,6 +91,10 @@ pub fn program_with(position: &str, all: Vec<Doc>, decor: usize) -> File {
         let mut f = Field::new("side", Ty::Prim("u32"));
         f.docs = docs("field");
         f
+    }, {
+        let mut f = Field::new("maybe", Ty::Option(Box::new(Ty::Prim("u32"))));
+        f.docs = docs("optional-field");
+        f
     }]);
     s.docs = docs("type");
     let mut u = Item::enumm("Unit", vec![
@@ -110,6 +116,11 @@ pub fn program_with(position: &str, all: Vec<Doc>, decor: usize) -> File {
             let mut v = Variant::new("Rec", VKind::Struct(vec![{
                 let mut f = Field::new("inner", Ty::Prim("bool"));
                 f.docs = docs("variant-field");
+                f
+            }, {
+                let mut f = Field::new("other_name", Ty::Prim("String"));
+                f.rename = Some("other-name".into());
+                f.docs = docs("renamed-variant-field");
                 f
             }]));
             v.docs = docs("algebraic-struct-variant");
